@@ -91,10 +91,34 @@ def history(v, obs):
     return [o for o in obs if o["id"] != "__history__"]
 
 
+def big_compressed(seed, thorough, first_id):
+    """COMPRESSED sections far beyond the table of Etf!Deflated (zlib itself is outside the specification: the table pairs a stream with the plain
+    bytes it stands for): binaries of 1 000 .. 70 000 (thorough: 200 000) bytes that compress well, badly and not at all, deflated at levels 0 (stored
+    blocks: the stream is longer than the data), 1, 6 and 9, alone and inside a tuple.  The value is known by construction."""
+    import random, struct, zlib
+    rng = random.Random(seed)
+    out = []
+    sizes = [1000, 32767, 32768, 33000, 40000, 70000] + ([131072, 200000] if thorough else [])
+    for n in sizes:
+        for kind in ("random", "zeros", "pattern"):
+            data = bytes(rng.getrandbits(8) for _ in range(n)) if kind == "random" else bytes(n) if kind == "zeros" else bytes((i * 7 + i // 251) % 256 for i in range(n))
+            for wrapped in (False, True):
+                plain = bytes([109]) + struct.pack(">I", n) + data
+                val = {"k": "bin", "b": list(data)}
+                if wrapped:
+                    plain = bytes([104, 2, 119, 2, 111, 107]) + plain
+                    val = {"k": "tuple", "e": [{"k": "atom", "b": [111, 107]}, val]}
+                alts = [{"why": f"COMPRESSED: {kind} data of {n} bytes, deflate level {lvl}, stream of {len(z)} bytes", "bytes": [131, 80] + list(struct.pack(">I", len(plain))) + list(z)}
+                        for lvl in (0, 1, 6, 9) for z in [zlib.compress(plain, lvl)]]
+                out.append({"id": first_id + len(out), "v": val, "enc": [131] + list(plain), "alts": alts})
+    return out
+
+
 def run(tier, seed):
     v = lib.Verdict(PID, tier, seed, "exploration")
     thorough = tier == "thorough"
     _, vp, recs, unenc = E.check_and_gen(PID, "D2" if thorough else "D1", "D2", True, thorough)
+    recs = recs + big_compressed(seed, thorough, max(r["id"] for r in recs) + 100001)
     recs_only = os.path.join(lib.outdir(PID), "vectors_only.ndjson")
     lib.write_ndjson(recs_only, recs)
     obs = E.run_obs(PID, recs_only, {"borrowed": False, "seed": seed, "history": True})
